@@ -37,6 +37,20 @@ def make(shape, margin=False):
             P = shape.params(cx, reduce=None)
             T = P["T"]
         T0 = spec.pose(cx, "T0", reduce=None)
+        if not sym(cx) and not any(k.startswith("T0_rel") for k in cx.values):
+            # native sampling: the old and the new pose are independent symbols in the proof tier (so every relation between them is
+            # covered there); random floats never share a translation or a rotation, so those classes are drawn on purpose
+            u = cx.rng.random()
+            rel = 1 if u < 0.25 else 2 if u < 0.45 else 3 if u < 0.5 else 0
+            cx.values["T0_rel"] = float(rel)
+            if rel in (1, 3):
+                T0[:3, 3] = T[:3, 3]
+            if rel in (2, 3):
+                T0[:3, :3] = T[:3, :3]
+            for i in range(3):
+                cx.values["T0_t%d" % i] = float(T0[i, 3])
+                for j in range(3):
+                    cx.values["T0_R%d%d" % (i, j)] = float(T0[i, j])
         P0 = params_at(shape, cx, P, T0)
         moved = shape.build(cx, P0)
         fresh = shape.build(cx, P)
@@ -46,7 +60,7 @@ def make(shape, margin=False):
             moved, fresh = cx.call(M, moved, m), cx.call(M, fresh, m)
         pose_arg = np.ascontiguousarray(np.array(T, dtype=T.dtype))      # a fresh C-contiguous 4x4 array
         cx.call(moved.update_pose, pose_arg)
-        q = cx.choice(5, "query")
+        q = cx.choice(6, "query")
         if q == 0:
             d = cx.vec("d")
             a = cx.call(moved.support_function, d)
@@ -58,8 +72,14 @@ def make(shape, margin=False):
             cx.prove("center_equal", cx.eq(cx.call(moved.center), cx.call(fresh.center)))
         elif q == 3:
             cx.prove("first_vertex_equal", cx.eq(cx.call(moved.first_vertex), cx.call(fresh.first_vertex)))
-        else:
+        elif q == 4:
             cx.prove("collider2origin_equal", cx.eq(cx.call(moved.collider2origin), cx.call(fresh.collider2origin)))
+        else:
+            # every array / number the object stores equals that of a collider constructed at p (derived data such as the box corners
+            # included); cheaper than going through the queries and independent of which of them reads which field
+            from contracts.c03_mesh import _state_equal
+            a, b = (moved.collider, fresh.collider) if margin else (moved, fresh)
+            _state_equal(cx, a, b, K, set())
         cx.cover("end")
 
 
